@@ -48,7 +48,13 @@ pub fn clap_dump(_req: &Value) -> Value {
         }
         subs.push(json!({"name": sc.get_name(), "args": args, "conflicts": conflicts, "hidden": sc.is_hide_set()}));
     }
-    json!({"ok": {"globals": globals, "subcommands": subs}})
+    let mut gconf = vec![];
+    for a in cmd.get_arguments() {
+        for c in cmd.get_arg_conflicts_with(a) {
+            gconf.push(json!([a.get_id().as_str(), c.get_id().as_str()]));
+        }
+    }
+    json!({"ok": {"globals": globals, "global_conflicts": gconf, "subcommands": subs}})
 }
 
 pub fn clap_parse(req: &Value) -> Value {
